@@ -85,6 +85,32 @@ Definition drop_pair (p : K * V) : M unit :=
   bv <- cbd (fun s => dropV E s (snd p)) ;;
   if bk || bv then panic else ret tt.
 
+(* Unwinding out of a frame that still owns some values: their destructors run
+   (a Drop that panics while unwinding aborts the process: not modelled, its
+   answer is ignored). *)
+Definition unwind_key (k : K) : M unit :=
+  emit (ev_drops (idK E k)) ;; _ <- cbd (fun s => dropK E s k) ;; ret tt.
+Definition unwind_pair (p : K * V) : M unit :=
+  emit (ev_drops (idK E (fst p) ++ idV E (snd p))) ;;
+  _ <- cbd (fun s => dropK E s (fst p)) ;; _ <- cbd (fun s => dropV E s (snd p)) ;; ret tt.
+Fixpoint unwind_pairs (l : list (K * V)) : M unit :=
+  match l with [] => ret tt | p :: t => unwind_pair p ;; unwind_pairs t end.
+
+(* run [c]; if it panics, run the cleanup of the locals this frame owns, then keep unwinding *)
+Definition on_unwind {A} (cleanup : M unit) (c : M A) : M A :=
+  fun w => match c w with
+           | Panic w' => match cleanup w' with
+                         | Ok _ w'' => Panic w''
+                         | Panic w'' => Panic w''
+                         | UB => UB
+                         end
+           | r => r
+           end.
+
+(* the bounds check of self.pairs[i] *)
+Definition check_index (i : nat) : M unit :=
+  c <- get_cap ;; if i <? c then ret tt else panic.
+
 (* assume_init_drop(): item_drop. *)
 Definition p_drop (i : nat) : M unit :=
   p <- p_read i ;; drop_pair p.
